@@ -217,7 +217,12 @@ func Build(d *Data, modes Modes, h *Hooks) *graphql.Schema {
 	user.Key("id")
 	register(user, "items", modes["items"], h, func(u *User) int64 { return u.Id }, func(u *User) []*Item { return d.ItemsOf(u) })
 	register(user, "friend", modes["friend"], h, func(u *User) int64 { return u.Id }, func(u *User) *User { return d.Friend(u) })
-	register(user, "score", modes["score"], h, func(u *User) int64 { return u.Id }, func(u *User) int64 { return d.Score(u) })
+	scoreMode := modes["score"]
+	if scoreMode == BatchFallbackOn || scoreMode == BatchFallbackOff {
+		// the builder rejects batch+fallback for a non-pointer scalar (nullable vs non-null return types)
+		scoreMode = Batch
+	}
+	register(user, "score", scoreMode, h, func(u *User) int64 { return u.Id }, func(u *User) int64 { return d.Score(u) })
 	register(user, "fav", modes["fav"], h, func(u *User) int64 { return u.Id }, func(u *User) *Thing { return d.Fav(u) })
 	user.FieldFunc("best", func(u *User) *Item {
 		if its := d.ItemsOf(u); len(its) > 0 {
@@ -260,7 +265,12 @@ func (LIFO) Run(resolver graphql.UnitResolver, units ...*graphql.WorkUnit) {
 }
 
 // Exec parses, validates and executes a query; the result is normalised through JSON.
-func Exec(ctx context.Context, schema *graphql.Schema, sched graphql.WorkScheduler, query string, vars map[string]interface{}) (interface{}, error) {
+func Exec(ctx context.Context, schema *graphql.Schema, sched graphql.WorkScheduler, query string, vars map[string]interface{}) (res interface{}, err error) {
+	defer func() {
+		if p := recover(); p != nil {
+			res, err = nil, fmt.Errorf("PANIC: %v", p)
+		}
+	}()
 	q, err := graphql.Parse(query, vars)
 	if err != nil {
 		return nil, fmt.Errorf("parse: %w", err)
@@ -272,7 +282,7 @@ func Exec(ctx context.Context, schema *graphql.Schema, sched graphql.WorkSchedul
 	if err := graphql.PrepareQuery(ctx, typ, q.SelectionSet); err != nil {
 		return nil, fmt.Errorf("prepare: %w", err)
 	}
-	res, err := graphql.NewExecutor(sched).Execute(ctx, typ, nil, q)
+	res, err = graphql.NewExecutor(sched).Execute(ctx, typ, nil, q)
 	if err != nil {
 		return nil, fmt.Errorf("execute: %w", err)
 	}
